@@ -1,5 +1,6 @@
 import Dawgs.Model.SqlEval
 import Dawgs.Model.C01S2
+import Dawgs.Model.C01Chain
 /-
 C02 — models of the optimiser's transformations.
 
@@ -271,8 +272,9 @@ def countWhere (km : KindMap) (ks : List String) : Option (Option Sql.Expr) :=
 path is on: stages S1 and S2 of C01 (`tr2F flipOf`), and the count fragment; `none` elsewhere.
 The optimised translator (`Translate`) and the unoptimised one (`TranslateUnoptimized`) differ on this fragment in exactly two ways: the
 lowering TraversalDirectionSelection may pick the other join order for a hop, and CountStoreFastPath replaces the count statement. -/
-def trVariant (flipOf : C01.S2.Query → Bool) (fastPath : Bool) (km : KindMap) (q : Cy.Query) : Option (Sql.Stmt × List (String × Val)) :=
-  match C01.tr2F flipOf km q with
+def trVariant (flipOf : C01.S2.Query → Bool) (flipCh : C01.Ch.Query → Bool) (fastPath : Bool) (km : KindMap) (q : Cy.Query) :
+    Option (Sql.Stmt × List (String × Val)) :=
+  match C01.tr3F flipOf flipCh km q with
   | some r => some r
   | none =>
     match ofCyCount q with
@@ -280,9 +282,9 @@ def trVariant (flipOf : C01.S2.Query → Bool) (fastPath : Bool) (km : KindMap) 
     | none => none
 
 /-- with the optimiser: the model's approximation of the direction choice (see `C01.tr2F`), fast path on -/
-def trOpt (km : KindMap) (q : Cy.Query) : Option (Sql.Stmt × List (String × Val)) := trVariant C01.flipOpt true km q
+def trOpt (km : KindMap) (q : Cy.Query) : Option (Sql.Stmt × List (String × Val)) := trVariant C01.flipOpt (fun _ => false) true km q
 
 /-- without the optimiser -/
-def trUnopt (km : KindMap) (q : Cy.Query) : Option (Sql.Stmt × List (String × Val)) := trVariant C01.flipUnopt false km q
+def trUnopt (km : KindMap) (q : Cy.Query) : Option (Sql.Stmt × List (String × Val)) := trVariant C01.flipUnopt (fun _ => false) false km q
 
 end Dawgs.C02
